@@ -64,6 +64,9 @@ type State struct {
 	useOld   bool
 	steps    int
 	freshErrs []string
+	isAxiom  map[int]bool
+	conds    map[string]bool   // branch conditions already decided on this path
+	eqNum    map[string]string // terms known equal to a numeral
 	freshRefs []string
 	protected []string // refs of non-escaping local allocations (survive havoc-all)
 }
@@ -90,6 +93,18 @@ func (st *State) fork() *State {
 	n.trail = append([]string(nil), st.trail...)
 	n.protected = append([]string(nil), st.protected...)
 	n.freshErrs = append([]string(nil), st.freshErrs...)
+	n.isAxiom = make(map[int]bool, len(st.isAxiom))
+	for k, v := range st.isAxiom {
+		n.isAxiom[k] = v
+	}
+	n.conds = make(map[string]bool, len(st.conds))
+	for k, v := range st.conds {
+		n.conds[k] = v
+	}
+	n.eqNum = make(map[string]string, len(st.eqNum))
+	for k, v := range st.eqNum {
+		n.eqNum[k] = v
+	}
 	n.freshRefs = append([]string(nil), st.freshRefs...)
 	n.frames = make([]*Frame, len(st.frames))
 	for i, f := range st.frames {
@@ -217,7 +232,7 @@ func (st *State) havocAll(reason string) {
 			st.heap[k] = old[k] // locks held by us and error sentinels are not changed by callees
 			continue
 		}
-		as := st.eng.heapSorts[k]
+		as := st.eng.heapSort(k)
 		if as == "" {
 			continue
 		}
@@ -232,7 +247,7 @@ func (st *State) havocAll(reason string) {
 }
 
 func (st *State) havocKey(key string) {
-	as := st.eng.heapSorts[key]
+	as := st.eng.heapSort(key)
 	if as == "" {
 		return
 	}
@@ -469,4 +484,61 @@ func (st *State) valEq(a, b *Val) string {
 	}
 	st.note("equality on composite abstracted")
 	return st.fresh("eqx", SBool)
+}
+
+// decide records the outcome of a branch condition; decided answers later branches on the same
+// (or a syntactically contradictory) condition without forking. Purely an optimisation: it only
+// skips paths whose path condition is unsatisfiable.
+func (st *State) decide(c string, v bool) {
+	if st.conds == nil {
+		st.conds = map[string]bool{}
+		st.eqNum = map[string]string{}
+	}
+	if strings.HasPrefix(c, "(not ") && balanced(c[5:len(c)-1]) {
+		st.decide(c[5:len(c)-1], !v)
+		return
+	}
+	st.conds[c] = v
+	if v {
+		if t, n, ok := eqNumeral(c); ok {
+			st.eqNum[t] = n
+		}
+	}
+}
+
+func (st *State) decided(c string) (bool, bool) {
+	if st.conds == nil {
+		return false, false
+	}
+	neg := false
+	for strings.HasPrefix(c, "(not ") && balanced(c[5:len(c)-1]) {
+		c = c[5 : len(c)-1]
+		neg = !neg
+	}
+	if v, ok := st.conds[c]; ok {
+		return v != neg, true
+	}
+	if t, n, ok := eqNumeral(c); ok {
+		if m, known := st.eqNum[t]; known && m != n {
+			return neg, true // t = m and m != n: condition (= t n) is false
+		}
+	}
+	return false, false
+}
+
+// eqNumeral matches (= T n) with n a numeral.
+func eqNumeral(c string) (term, numeral string, ok bool) {
+	if !strings.HasPrefix(c, "(= ") || !strings.HasSuffix(c, ")") {
+		return
+	}
+	body := c[3 : len(c)-1]
+	i := strings.LastIndex(body, " ")
+	if i < 0 {
+		return
+	}
+	t, n := body[:i], body[i+1:]
+	if _, isNum := parseNum(n); !isNum || !balanced(t) {
+		return
+	}
+	return t, n, true
 }
